@@ -197,8 +197,27 @@ def run_route(case, path):
         for i, v in enumerate(vals):
             v.skip = {(e, l) for (e, l, vv) in s if vv == i}
 
+    ab = abort_of(case)
+
+    def set_poison(on):
+        for i, v in enumerate(vals):
+            v.poison = {(ab["tri"][0], ab["tri"][1]): (ab["kind"], ab.get("row", 0))} if (on and ab and ab["tri"][2] == i) else {}
+
     with _Ctx() as ctx:
         try:
+            if ab:
+                # the run stops in the middle (unwritable cell / Ctrl-C while evaluating triple `tri`): what was completed before stays recorded.
+                # repair=False: every route is that stopped run.  repair=True: the file route is the stopped run followed by a complete one on the same file.
+                set_skip(fail)
+                calls0 = None
+                if not ab.get("repair") or path is not None:
+                    set_poison(True)
+                    res = Experiment(eval_tuples=triples, description=case.get("desc")).run(path, processes=1, seed=case.get("seed", 1))
+                    calls0 = [list(v.calls) for v in vals]
+                if ab.get("repair"):
+                    set_poison(False)
+                    res = Experiment(eval_tuples=triples, description=case.get("desc")).run(path, processes=1, seed=case.get("seed", 1))
+                return res, None, ctx.msgs, (calls0 if calls0 is not None else [v.calls for v in vals])
             if two:
                 set_skip(fail | skip1)
                 Experiment(eval_tuples=triples, description=case.get("desc")).run(path, processes=1, seed=case.get("seed", 1))
@@ -216,8 +235,26 @@ def run_route(case, path):
                 shuffle_file(case, path)
                 res = Experiment(eval_tuples=triples, description=case.get("desc")).run(path, processes=1, seed=case.get("seed", 1))
             return res, None, ctx.msgs, [v.calls for v in vals]
-        except Exception as ex:  # the final read of the log raised
+        except BaseException as ex:  # the final read of the log raised (or an interrupt escaped run())
+            if not isinstance(ex, (Exception, KeyboardInterrupt)):
+                raise
             return None, type(ex).__name__, ctx.msgs, [v.calls for v in vals]
+
+
+def abort_of(case):
+    """the usable `abort` entry of a case: {"tri": [e,l,v] (one of the triples, not a failing one), "kind": set|object|interrupt, "row": r, "repair": bool}"""
+    ab = case.get("abort")
+    if not ab:
+        return None
+    tris = [list(t) for t in case["triples"]]
+    if list(ab["tri"]) not in tris or list(ab["tri"]) in [list(t) for t in case.get("fail", [])]:
+        return None
+    return ab
+
+
+def called_triples(calls):
+    """calls: per evaluator index the (env.tag, lrn.tag) pairs it was asked to evaluate -> list of triples"""
+    return [(e, l, v) for v, cs in enumerate(calls or []) for (e, l) in cs]
 
 
 FNAME_SHAPES = {
@@ -315,6 +352,7 @@ def decoy_case(case):
     c["dup"] = []
     c["punch"] = []
     c["phases"] = 1
+    c["abort"] = None
     return c
 
 
@@ -342,9 +380,10 @@ def run_impl(case):
     """all three routes; returns dict route -> canonical result or {"raised": name}"""
     from coba.results import Result
     out, logs = {}, {}
-    r1, x1, m1, _ = run_route(effective_case(case) if dup_ops(case) else case, None)
+    r1, x1, m1, c1 = run_route(effective_case(case) if dup_ops(case) else case, None)
     out["nofile"] = canon_result(r1) if r1 is not None else {"raised": x1}
     logs["nofile"] = m1
+    logs["calls"] = {"nofile": called_triples(c1)}
     logs["index"] = {}
 
     def idx(route, r):
@@ -372,7 +411,8 @@ def run_impl(case):
                 pass
             if os.path.exists(path):
                 os.remove(path)
-        r2, x2, m2, _ = run_route(case, path)
+        r2, x2, m2, c2 = run_route(case, path)
+        logs["calls"]["file"] = called_triples(c2)
         out["file"] = canon_result(r2) if r2 is not None else {"raised": x2}
         logs["file"] = m2
         logs["padded"] = canon_padded(r2) if r2 is not None else None
@@ -459,10 +499,37 @@ def table_is_empty(rows):
     return len(union_keys(rows)) == 0
 
 
-def transactions(case):
+def abort_view(case, impl, logs):
+    """for a run that was stopped in the middle (abort, no repair): which evaluations were completed (asked of the evaluator before the run
+    stopped, neither failing nor the one that stopped the run) and which component records the log holds.  None for every other case.
+    Which records precede the stop is MakeTasks/ChunkTasks' order (C02's subject) and is read off the run, not prescribed."""
+    ab = abort_of(case)
+    if not ab or ab.get("repair"):
+        return None
+    fail = set(map(tuple, case.get("fail", [])))
+    called = set(map(tuple, (logs.get("calls") or {}).get("file") or []))
+    done = [tuple(t) for t in case["triples"] if tuple(t) in called and tuple(t) not in fail and tuple(t) != tuple(ab["tri"])]
+    ids = {}
+    res = impl.get("file") or {}
+    for tbl, idcol in (("envs", "environment_id"), ("lrns", "learner_id"), ("vals", "evaluator_id")):
+        ids[tbl] = set()
+        for r in res.get(tbl) or []:
+            for k, v in r:
+                if k == idcol and isinstance(v, list) and v and v[0] == "q":
+                    ids[tbl].add(v[1])
+    return {"done": done, "ids": ids}
+
+
+def transactions(case, view=None):
     """(phase1 or None, last-run transactions) as the list ProcessTasks emits (order immaterial for the tables)"""
     eid, lid, vid = assign_ids(case)
     fail = set(map(tuple, case.get("fail", [])))
+    if view is not None:
+        txs = [{"t": "T1", "id": i, "p": ["d", safe_params("env", case["envs"][e])]} for e, i in eid.items() if i in view["ids"]["envs"]] \
+            + [{"t": "T2", "id": i, "p": ["d", safe_params("lrn", case["lrns"][l])]} for l, i in lid.items() if i in view["ids"]["lrns"]] \
+            + [{"t": "T3", "id": i, "p": ["d", safe_params("val", case["vals"][v])]} for v, i in vid.items() if i in view["ids"]["vals"]] \
+            + [{"t": "T4", "ids": [eid[e], lid[l], vid[v]], "rows": [r for r in rows_of(case, (e, l, v))]} for (e, l, v) in view["done"]]
+        return None, txs
     skip1 = set(map(tuple, case.get("skip1", [])))
     comps = []
     for e, i in eid.items():
@@ -779,13 +846,15 @@ def p16_shape(rows, name):
     return None
 
 
-def check_property(case, impl):
-    """-> list of F('B', …)"""
+def check_property(case, impl, view=None):
+    """-> list of F('B', …).  view (abort_view): the run was stopped in the middle; the completed evaluations are view['done']"""
     fails = []
     eid, lid, vid = assign_ids(case)
     fail = set(map(tuple, case.get("fail", [])))
     tris = [tuple(t) for t in case["triples"]]
     done = [t for t in tris if t not in fail]
+    if view is not None:
+        done = list(view["done"])
     raised = {k: v["raised"] for k, v in impl.items() if "raised" in v}
     if raised:
         shapes = set()
@@ -829,6 +898,12 @@ def check_property(case, impl):
         rows = res[tbl]
         got_ids = [dict(map(tuple, [(k, json.dumps(v)) for k, v in r])).get(idcol) for r in rows]
         want_ids = [json.dumps(["q", i, 1]) for i in sorted(ids.values())]
+        if view is not None:
+            # a stopped run: every component of a completed evaluation is recorded; further components may be (recorded before the stop)
+            pos = {"env": 0, "lrn": 1, "val": 2}[kind]
+            need = {json.dumps(["q", ids[t[pos]], 1]) for t in done}
+            if len(set(got_ids)) == len(got_ids) and need <= set(got_ids) <= set(want_ids):
+                want_ids = [w for w in want_ids if w in set(got_ids)]
         if got_ids != want_ids:
             fails.append(F("B", "%s table has ids %s, expected %s" % (tbl, got_ids, want_ids), "params:%s:ids" % tbl))
             continue
@@ -958,7 +1033,8 @@ def gen_reward(rng):
     fl = lambda: ["f", rng.choice(["0.25", "0.75", "0.5", "1.0", "-2.5", "0.125", "3.0", "0.123456789", "5e-06", "1.234565"])]
     acts = ["l", [["i", a] for a in rng.sample([0, 1, 2, 3, 5], rng.choice([2, 3]))]]
     if k == 0:
-        return ["r", "L1", [fl()]]
+        # the state of an L1Reward is its argmax itself: 0 / 0.0 / -0.0 are legal rewards whose registered state is falsy
+        return ["r", "L1", [rng.choice([fl(), fl(), ["i", 0], ["f", "0.0"], ["f", "-0.0"], ["i", rng.randint(-2, 3)]])]]
     if k == 1:
         return ["r", "BR", [rng.choice([["i", rng.randint(0, 3)], ["s", "a"], acts])]]
     if k == 2:
@@ -1344,6 +1420,268 @@ def dup_file(case, path):
             f.write((json.dumps(r, separators=(",", ":")) + "\n").encode("utf-8"))
 
 
+# ------------------------------------------------------------------ phase 4: translator step (constants / key lists / dispatch tags read off the source)
+def _lean_str(s):
+    out = ['"']
+    for ch in s:
+        if ch == '"' or ch == "\\":
+            out.append("\\" + ch)
+        elif ch == "\n":
+            out.append("\\n")
+        elif 32 <= ord(ch) < 127:
+            out.append(ch)
+        else:
+            out.append("\\u{%x}" % ord(ch))
+    out.append('"')
+    return "".join(out)
+
+
+def _lean_strs(xs):
+    return "[" + ", ".join(_lean_str(x) for x in xs) + "]"
+
+
+C07_DEFAULTS = {
+    "encVersion": 4, "decVersion": 4, "resVersion": 4,
+    "encTags": [["T0", "experiment"], ["T1", "E"], ["T2", "L"], ["T3", "V"], ["T4", "I"]],
+    "resTags": ["experiment", "E", "L", "V", "I"],
+    "packedKey": "_packed", "countKey": "_n", "encKeyIsStr": True, "encAbsentIsNone": True,
+    "exemptCols": ["rewards"], "intCols": ["environment_id", "learner_id", "evaluator_id", "index"],
+    "paramCols": ["environment_id", "learner_id", "evaluator_id"],
+    "idAssigned": ["environment_id", "learner_id", "evaluator_id", "index"], "indexFrom": 1,
+    "precision": 5, "seqToList": ["tuple"],
+}
+
+
+def c07_extract(repo):
+    """constants / key lists / dispatch tags of the anchored mechanism, read from the CURRENT source with `ast`.
+    -> (values, list of names that could not be extracted)"""
+    got = {}
+    import ast
+    import warnings
+    with warnings.catch_warnings():
+        warnings.simplefilter("ignore")
+        core = ast.parse(open(os.path.join(repo, "coba", "results", "core.py"), encoding="utf-8").read())
+        util = ast.parse(open(os.path.join(repo, "coba", "utilities.py"), encoding="utf-8").read())
+    classes = {n.name: n for n in core.body if isinstance(n, ast.ClassDef)}
+
+    def method(cls, name):
+        for n in classes[cls].body:
+            if isinstance(n, ast.FunctionDef) and n.name == name:
+                return n
+        raise KeyError(name)
+
+    def const(n):
+        if isinstance(n, ast.Constant):
+            return n.value
+        raise ValueError(ast.dump(n))
+
+    def attempt(name, f):
+        try:
+            v = f()
+            if v is None:
+                raise ValueError("not found")
+            got[name] = v
+        except Exception:
+            pass
+
+    enc = lambda: method("TransactionEncode", "filter")
+    res = lambda: method("TransactionResult", "filter")
+    dec = lambda: method("TransactionDecode", "filter")
+
+    def enc_version():
+        for n in ast.walk(enc()):
+            if isinstance(n, ast.Call) and getattr(n.func, "id", None) == "encoder" and n.args and isinstance(n.args[0], ast.List):
+                el = n.args[0].elts
+                if len(el) == 2 and isinstance(el[0], ast.Constant) and el[0].value == "version":
+                    return int(const(el[1]))
+
+    def enc_tags():
+        out = []
+        for n in ast.walk(enc()):
+            if isinstance(n, ast.If) and isinstance(n.test, ast.Compare) and len(n.test.ops) == 1 and isinstance(n.test.ops[0], ast.Eq) \
+                    and isinstance(n.test.left, ast.Subscript) and getattr(n.test.left.value, "id", None) == "item":
+                t = const(n.test.comparators[0])
+                tag = None
+                for m in n.body:
+                    for c in ast.walk(m):
+                        if isinstance(c, ast.Call) and getattr(c.func, "id", None) == "encoder" and c.args and isinstance(c.args[0], ast.List):
+                            tag = const(c.args[0].elts[0])
+                if tag is None:
+                    return None
+                out.append([t, tag])
+        return sorted(out) or None
+
+    def dict_keys_in(fn):
+        """string keys of dict displays / subscript stores `packed[...]` in order of appearance"""
+        keys = []
+        for n in ast.walk(fn):
+            if isinstance(n, ast.Dict):
+                keys += [k.value for k in n.keys if isinstance(k, ast.Constant) and isinstance(k.value, str)]
+        return keys
+
+    def enc_packed_key():
+        ks = [k for k in dict_keys_in(enc())]
+        return ks[0] if ks else None
+
+    def enc_count_key():
+        for n in ast.walk(enc()):
+            if isinstance(n, ast.Assign) and isinstance(n.targets[0], ast.Subscript) and getattr(n.targets[0].value, "id", None) == "packed":
+                return const(n.targets[0].slice)
+
+    def enc_key_is_str():
+        # rows = [{str(k):v for k,v in r.items()} for r in item[2]]
+        for n in ast.walk(enc()):
+            if isinstance(n, ast.DictComp):
+                return isinstance(n.key, ast.Call) and getattr(n.key.func, "id", None) == "str" and len(n.key.args) == 1 and getattr(n.key.args[0], "id", "") == getattr(n.generators[0].target.elts[0], "id", None) \
+                    and getattr(n.value, "id", "") == getattr(n.generators[0].target.elts[1], "id", None)
+        return None
+
+    def enc_absent_none():
+        # rows_T[key].append(row.get(key,None))
+        for n in ast.walk(enc()):
+            if isinstance(n, ast.Call) and isinstance(n.func, ast.Attribute) and n.func.attr == "get" and getattr(n.func.value, "id", None) == "row":
+                return len(n.args) == 1 or (len(n.args) == 2 and isinstance(n.args[1], ast.Constant) and n.args[1].value is None)
+        return None
+
+    def dec_version():
+        for n in ast.walk(dec()):
+            if isinstance(n, ast.Compare) and isinstance(n.ops[0], ast.Eq) and isinstance(n.left, ast.Subscript) and getattr(n.left.value, "id", None) == "ver_row":
+                return int(const(n.comparators[0]))
+
+    def res_version():
+        for n in ast.walk(res()):
+            if isinstance(n, ast.Compare) and isinstance(n.ops[0], ast.NotEq) and getattr(n.left, "id", None) == "version":
+                return int(const(n.comparators[0]))
+
+    def res_tags():
+        out = []
+        for n in ast.walk(res()):
+            if isinstance(n, ast.If) and isinstance(n.test, ast.Compare) and isinstance(n.test.ops[0], ast.Eq) and isinstance(n.test.left, ast.Subscript) \
+                    and getattr(n.test.left.value, "id", None) == "trx" and isinstance(n.test.left.slice, ast.Constant) and n.test.left.slice.value == 0:
+                out.append(const(n.test.comparators[0]))
+        return out or None
+
+    def exempt_cols():
+        for n in ast.walk(res()):
+            if isinstance(n, ast.FunctionDef) and n.name == "packed_list2tuple":
+                out = []
+                for c in ast.walk(n):
+                    if isinstance(c, ast.Compare) and getattr(c.left, "id", None) == "k":
+                        if isinstance(c.ops[0], ast.NotEq):
+                            out.append(const(c.comparators[0]))
+                        elif isinstance(c.ops[0], ast.NotIn):
+                            out += [const(e) for e in c.comparators[0].elts]
+                        else:
+                            return None
+                return out
+
+    def table_cols(var):
+        for n in ast.walk(res()):
+            if isinstance(n, ast.Assign) and getattr(n.targets[0], "id", None) == var and isinstance(n.value, ast.Call) and getattr(n.value.func, "id", None) == "Table":
+                for kw in n.value.keywords:
+                    if kw.arg == "columns":
+                        v = kw.value
+                        if isinstance(v, ast.BinOp):      # [...] + rwd_col
+                            v = v.left
+                        return [const(e) for e in v.elts]
+
+    def id_assigned():
+        out = []
+        for n in ast.walk(res()):
+            if isinstance(n, ast.Assign) and isinstance(n.targets[0], ast.Subscript) and getattr(n.targets[0].value, "id", None) == "packed":
+                out.append(const(n.targets[0].slice))
+        return out or None
+
+    def index_from():
+        for n in ast.walk(res()):
+            if isinstance(n, ast.Assign) and isinstance(n.targets[0], ast.Subscript) and getattr(n.targets[0].value, "id", None) == "packed" \
+                    and const(n.targets[0].slice) == "index":
+                for c in ast.walk(n.value):
+                    if isinstance(c, ast.Call) and getattr(c.func, "id", None) == "range" and len(c.args) == 2:
+                        hi = c.args[1]
+                        lo = int(const(c.args[0]))
+                        if isinstance(hi, ast.BinOp) and isinstance(hi.op, ast.Add) and getattr(hi.left, "id", None) == "N" and const(hi.right) == lo:
+                            return lo
+
+    def res_packed_key():
+        for n in ast.walk(res()):
+            if isinstance(n, ast.Call) and getattr(n.func, "id", None) == "packed_list2tuple" and isinstance(n.args[0], ast.Subscript):
+                return const(n.args[0].slice)
+
+    def res_count_key():
+        for n in ast.walk(res()):
+            if isinstance(n, ast.Assign) and getattr(n.targets[0], "id", None) == "N" and isinstance(n.value, ast.IfExp) and isinstance(n.value.orelse, ast.Subscript):
+                return const(n.value.orelse.slice)
+
+    def precision():
+        for n in util.body:
+            if isinstance(n, ast.FunctionDef) and n.name == "minimize":
+                names = [a.arg for a in n.args.args]
+                d = n.args.defaults[len(n.args.defaults) - (len(names) - names.index("precision"))]
+                p = int(const(d))
+                # P = 10**precision
+                for c in ast.walk(n):
+                    if isinstance(c, ast.Assign) and getattr(c.targets[0], "id", None) == "P":
+                        v = c.value
+                        if not (isinstance(v, ast.BinOp) and isinstance(v.op, ast.Pow) and const(v.left) == 10 and getattr(v.right, "id", None) == "precision"):
+                            return None
+                        return p
+
+    def minimize_call_precision():
+        # the encoder calls minimize(x) without a precision
+        for n in ast.walk(enc()):
+            if isinstance(n, ast.Call) and getattr(n.func, "id", None) == "minimize":
+                return len(n.args) == 1 and not n.keywords
+        return None
+
+    attempt("encVersion", enc_version)
+    attempt("decVersion", dec_version)
+    attempt("resVersion", res_version)
+    attempt("encTags", enc_tags)
+    attempt("resTags", res_tags)
+    attempt("packedKey", lambda: enc_packed_key() if enc_packed_key() == res_packed_key() else None)
+    attempt("countKey", lambda: enc_count_key() if enc_count_key() == res_count_key() else None)
+    attempt("encKeyIsStr", enc_key_is_str)
+    attempt("encAbsentIsNone", enc_absent_none)
+    attempt("exemptCols", exempt_cols)
+    attempt("intCols", lambda: table_cols("int_table"))
+    attempt("paramCols", lambda: table_cols("env_table") + table_cols("lrn_table") + table_cols("val_table"))
+    attempt("idAssigned", id_assigned)
+    attempt("indexFrom", index_from)
+    attempt("precision", lambda: precision() if minimize_call_precision() else None)
+    missing = [k for k in C07_DEFAULTS if k not in got and k != "seqToList"]
+    vals = dict(C07_DEFAULTS)
+    vals.update(got)
+    return vals, missing
+
+
+def c07_render(vals, missing):
+    L = ["-- GENERATED by harness/props/c07.py (pre_build) from coba/results/core.py and coba/utilities.py on every run; do not edit.",
+         "-- Each definition is read off the CURRENT source with Python's `ast`; `Props/C07.lean` proves they equal what the model uses.",
+         "namespace Coba.Generated.C07",
+         "/-- `TransactionEncode`: `encoder([\"version\",N])` -/", "def encVersion : Int := %d" % vals["encVersion"],
+         "/-- `TransactionDecode`: `ver_row[1] == N` -/", "def decVersion : Int := %d" % vals["decVersion"],
+         "/-- `TransactionResult`: `version != N` raises -/", "def resVersion : Int := %d" % vals["resVersion"],
+         "/-- `TransactionEncode`: `item[0] == T` -> first element of the record written -/",
+         "def encTags : List (String × String) := [" + ", ".join("(%s, %s)" % (_lean_str(a), _lean_str(b)) for a, b in vals["encTags"]) + "]",
+         "/-- `TransactionResult`: the `trx[0] == tag` tests in source order -/", "def resTags : List String := " + _lean_strs(vals["resTags"]),
+         "/-- key of the column dictionary in an interaction record (same literal in encoder and reader) -/", "def packedKey : String := " + _lean_str(vals["packedKey"]),
+         "/-- key of the row count beside an empty column dictionary (same literal in encoder and reader) -/", "def countKey : String := " + _lean_str(vals["countKey"]),
+         "/-- `{str(k):v for k,v in r.items()}`: field names are written as `str(key)` -/", "def encKeyIsStr : Bool := " + ("true" if vals["encKeyIsStr"] else "false"),
+         "/-- `row.get(key,None)`: an absent field is written as None -/", "def encAbsentIsNone : Bool := " + ("true" if vals["encAbsentIsNone"] else "false"),
+         "/-- `packed_list2tuple`: columns exempt from the list->tuple conversion -/", "def exemptCols : List String := " + _lean_strs(vals["exemptCols"]),
+         "/-- `Table(columns=[…])` of the interactions table (before `rwd_col`) -/", "def intCols : List String := " + _lean_strs(vals["intCols"]),
+         "/-- `Table(columns=[…])` of the environments, learners, evaluators tables -/", "def paramCols : List String := " + _lean_strs(vals["paramCols"]),
+         "/-- `packed[name] = …` assignments in source order (the id columns overwrite same-named fields) -/", "def idAssigned : List String := " + _lean_strs(vals["idAssigned"]),
+         "/-- `list(range(k,N+k))`: first index -/", "def indexFrom : Int := %d" % vals["indexFrom"],
+         "/-- default `precision` of `minimize` (`P = 10**precision`), which the encoder uses -/", "def precision : Nat := %d" % vals["precision"],
+         "/-- names that could NOT be read off the source (code reshaped): their definitions above are the model's own values -/",
+         "def notExtracted : List String := " + _lean_strs(missing),
+         "end Coba.Generated.C07", ""]
+    return "\n".join(L)
+
+
+
 # model variants: encoder pinned/repaired (str-key collision) x reader pinned/repaired (per-cell tuples) x log without/with `_n` ("S" = without)
 COMBOS = ("ffS", "ftS", "tfS", "ttS", "ff", "ft", "tf", "tt")
 
@@ -1358,7 +1696,7 @@ class C07(Property):
             "(ragged field sets, str/int/bool/None/float/tuple field names, None, bools, ints, floats incl. decimal ties at the 5th decimal, NaN/inf, -0.0, unicode/newline strings, "
             "nested lists/tuples/dicts) and whose components carry generated params; it is run through Experiment.run without a file, with a plain or .gz file (fresh, or "
             "restored after a first run in which some evaluations failed, or restored from a complete log out of which PRNG-chosen E/L/V/I records were deleted - a non-prefix subset) "
-            "or whose records were permuted, or to which copies of records were appended under other ids so that ids are recorded twice) under result-file names of several shapes (x.log, x.log.gz, x.gz.bak, a.gz.d/x.log, names with spaces/unicode, .GZ) and Result.from_file. Non-trivial: at least one completed triple with >= 2 rows and >= 2 distinct fields. "
+            "or whose records were permuted, or to which copies of records were appended under other ids so that ids are recorded twice, or a run that is stopped in the middle by a cell the encoder cannot write / a KeyboardInterrupt after other evaluations completed - alone or followed by a complete run on the same file) under result-file names of several shapes (x.log, x.log.gz, x.gz.bak, a.gz.d/x.log, names with spaces/unicode, .GZ) and Result.from_file. Non-trivial: at least one completed triple with >= 2 rows and >= 2 distinct fields. "
             "Distinct = distinct canonical JSON of the case.")
     trusted_base = [
         "json text codec (json.dumps/json.loads), file write/read and gzip: modelled as the identity on values modulo tuple->list and key->string (jsonify); checked on every case by (A)",
@@ -1370,6 +1708,8 @@ class C07(Property):
         "reward objects: the registered name and `__getstate__()` of L1Reward/BinaryReward/HammingReward/DiscreteReward are supplied by the harness (reward_form); the model builds {name: state} itself",
         "Table: only `columns` and `to_dicts()` (Missing kept apart from None) are modelled (padTable); index structures (_indexes/_lohis) are C17's; Result.__init__ caches are not observable through the tables",
         "MakeTasks/ProcessTasks/SafeEnvironment/SafeLearner/SafeEvaluator (which transactions are emitted) are mirrored by the harness, not by the Lean model",
+        "stopped runs (case['abort']): which evaluations were completed before the stop is read off the instrumented evaluator (task order is MakeTasks/ChunkTasks', C02's subject)",
+        "translator step: Generated/C07Consts.lean is produced from the source by Python's ast (harness/props/c07.py c07_extract); an item it cannot recognise falls back to the model's value and is listed in notExtracted",
     ]
     assumptions = [
         "field names of one transaction are pairwise not Python-equal unless identical (1 vs True vs 1.0 are never mixed)",
@@ -1385,6 +1725,26 @@ class C07(Property):
         "first_row_tuple_partial / packAsIs_partial / roundtrip_normalise_partial": "describe code states that are history now (aa4bb4c, 4cf485f, 6c776fe committed); the full-strength theorems are roundtrip_normalise, run_spec, interactions_last_wins, params_union",
         "minimize_idempotent_partial": "superseded by minimize_idempotent_full (phase 2); kept as the bounded corollary",
     }
+
+    # ---- translator step
+    def pre_build(self):
+        """regenerate lean/CobaVerif/Generated/C07Consts.lean from the CURRENT source; Props/C07.lean (`source_consts_match` …) proves the
+        generated definitions equal the model's, so an edit of those constants breaks the build and is routed to the failing-input search"""
+        from core import lean
+        repo = os.environ.get("COBA_REPO", "/repo")
+        try:
+            vals, missing = c07_extract(repo)
+        except Exception as ex:
+            vals, missing = dict(C07_DEFAULTS), sorted(k for k in C07_DEFAULTS if k != "seqToList")
+            missing.append("error:" + type(ex).__name__)
+        body = c07_render(vals, [m for m in missing if not m.startswith("error:")])
+        path = os.path.join(lean.LEAN_DIR, "CobaVerif", "Generated", "C07Consts.lean")
+        old = open(path, encoding="utf-8").read() if os.path.exists(path) else None
+        if old != body:
+            os.makedirs(os.path.dirname(path), exist_ok=True)
+            with open(path, "w", encoding="utf-8") as f:
+                f.write(body)
+        return ["C07 constants read off coba/results/core.py + coba/utilities.py: %d extracted, not extracted: %s" % (len(C07_DEFAULTS) - 1 - len([m for m in missing if not m.startswith("error:")]), missing or "none")]
 
     # ---- cases
     def generate(self, rng, tier, prone=None):
@@ -1420,7 +1780,15 @@ class C07(Property):
         if rng.chance(0.2):
             case["fail"] = rng.sample(triples, 1)
         case["decoy"] = rng.chance(0.3)
-        mode = rng.wchoice([(20, "fresh"), (25, "two"), (25, "punch"), (15, "shuffle"), (15, "dup")])
+        mode = rng.wchoice([(17, "fresh"), (22, "two"), (23, "punch"), (14, "shuffle"), (14, "dup"), (10, "abort")])
+        if mode == "abort":
+            # the run stops in the middle: the evaluation of one triple yields a cell that cannot be written (set / plain object) or is interrupted;
+            # mostly after other evaluations were completed.  30 %: a complete second run on the same file follows.
+            cands = [t for t in triples if t not in case["fail"]]
+            if cands:
+                later = [t for t in cands if triples.index(t) >= 1]
+                tri = rng.choice(later if later and rng.chance(0.85) else cands)
+                case["abort"] = {"tri": tri, "kind": rng.wchoice([(5, "set"), (3, "object"), (2, "interrupt")]), "row": rng.randint(0, 3), "repair": rng.chance(0.3)}
         if mode == "dup":
             # the log holds two records for some ids: a copy of another triple's / component's record is appended
             ops = []
@@ -1503,6 +1871,23 @@ class C07(Property):
                R("DR", L(I(1), I(2)), L(["f", "0.25"], ["f", "0.75"])), R("DR", L(S("x"), S("y")), L(I(0), I(1)))]
         cs.append(base([D((S("rewards"), rw), (S("x"), rw), (S("y"), L(rw, None))) for rw in rws], envs=[{"params": D((S("p"), rws[0]), (S("q"), T(rws[5])))}],
                        lrns=[{"params": D((S("r"), rws[1]))}], vals=[{"params": D((S("s"), rws[4])), "lazy": False}], fname="gz", gz=True, phases=2))
+        # round g m3: registered objects whose state is falsy (L1Reward(0) / (0.0) / (-0.0): the state is the argmax itself) as cells, nested, in `rewards`, as params
+        zs = [R("L1", I(0)), R("L1", ["f", "0.0"]), R("L1", ["f", "-0.0"]), R("L1", ["f", "0.5"]), R("BR", I(0)), R("HR", L()), R("BR", S(""))]
+        for shape in ("plain", "gz"):
+            cs.append(base([D((S("reward"), ["f", "-0.25"]), (S("rewards"), z), (S("x"), L(z, I(0))), (S("y"), D((S("k"), z)))) for z in zs],
+                           envs=[{"params": D((S("target"), zs[0]), (S("q"), T(zs[1], zs[3])))}], lrns=[{"params": D((S("r"), zs[2]))}],
+                           vals=[{"params": D((S("s"), zs[1])), "lazy": shape == "gz"}], fname=shape, gz=(shape == "gz"), phases=1 + (shape == "gz")))
+        cs.append(base([D((S("rewards"), zs[0]))]))
+        # round g m4: the run stops in the middle (a cell that cannot be written / Ctrl-C) after other evaluations were completed: what was completed is in the
+        # Result of every route (without a file too); a later complete run on the same file finishes the experiment
+        g4 = base([])
+        g4.update({"envs": [{"params": D((S("env_i"), I(i)))} for i in range(4)], "lrns": [{"params": D((S("family"), S("L")), (S("i"), I(i)))} for i in range(2)],
+                   "vals": [{"params": D((S("kind"), S("demo"))), "lazy": True}], "triples": [[e, l, 0] for e in range(4) for l in range(2)],
+                   "rows": [[[e, l, 0], [D((S("reward"), ["f", repr(e / 4)]), (S("seen"), L(I(e), I(l)))), D((S("reward"), ["f", repr(l / 4)]), (S("seen"), L(I(e))))]] for e in range(4) for l in range(2)]})
+        for shape in ("plain", "gz"):
+            for kind, tri, repair in (("set", [3, 0, 0], False), ("set", [3, 1, 0], True), ("object", [1, 1, 0], False), ("interrupt", [2, 0, 0], False), ("interrupt", [3, 1, 0], True), ("set", [0, 0, 0], False)):
+                cs.append(dict(json.loads(json.dumps(g4)), fname=shape, gz=(shape == "gz"), abort={"tri": tri, "kind": kind, "row": 1, "repair": repair}))
+        cs.append(base([D((S("a"), I(1)))], abort={"tri": [0, 0, 0], "kind": "set", "row": 0, "repair": False}, vals=[{"params": D(), "lazy": False}]))
         # the same path held another experiment's log of the same byte length before (m3)
         for shape in ("plain", "gz"):
             cs.append(base([D((S("reward"), ["f", "0.25"])), D((S("reward"), ["f", "0.5"]))], lrns=[{"params": D((S("family"), S("eps")), (S("epsilon"), ["f", "0.2"]))}],
@@ -1572,13 +1957,21 @@ class C07(Property):
         if dup_ops(case):
             tags.append("dup:" + "+".join(sorted({op[0] for op in dup_ops(case)})))
             case = effective_case(case)      # (B): the log with duplicated records must equal the uninterrupted run of this experiment
-        fails = check_property(case, impl)
+        view = abort_view(case, impl, logs)
+        ab = abort_of(case)
+        if ab:
+            tags.append("abort:" + ab["kind"] + (":then-repaired" if ab.get("repair") else ""))
+            if view is not None:
+                tags.append("abort:completed-before=%d" % min(3, len(view["done"])))
+        fails = check_property(case, impl, view)
         for route, probs in sorted((logs.get("index") or {}).items()):
             for sfx, text in probs[:3]:
                 fails.append(F("B", "route %s: %s" % (route, text), "index:" + sfx))
         eid, lid, vid = assign_ids(case)
         fail = set(map(tuple, case.get("fail", [])))
         done = [tuple(t) for t in case["triples"] if tuple(t) not in fail]
+        if view is not None:
+            done = list(view["done"])
         # tags / non-triviality
         nontrivial = False
         tags.append("phases:%d" % case.get("phases", 1))
@@ -1641,7 +2034,7 @@ class C07(Property):
         if outside:
             tags.append("A:skipped-outside-modelled-mechanism")     # Result.__init__'s full_name is not part of the model
         if driver is not None and not outside:
-            p1, txs = with_dups(shown, *transactions(shown))
+            p1, txs = with_dups(shown, *transactions(shown, view))
             info = ["d", [[S("n_learners"), ["i", len(lid)]], [S("n_environments"), ["i", len(eid)]],
                           [S("description"), (["s", case["desc"]] if case.get("desc") is not None else None)], [S("seed"), ["i", case.get("seed", 1)]]]]
             ans = driver.ask({"info": lean_val(info), "txs": [lean_tx(t) for t in txs], "phase1": None if p1 is None else [lean_tx(t) for t in p1]})
@@ -1731,7 +2124,7 @@ class C07(Property):
                 # Lean spec vs Python oracle: run the (B) interaction monitor on the spec rows
                 if not any("raised" in v for v in impl.values()):
                     probe = {k: dict(impl["file"], ints=spec_impl["file"]["ints"]) for k in ("nofile", "file", "from_file")}
-                    for f in check_property(case, probe):
+                    for f in check_property(case, probe, view):
                         if f["sig"].startswith(("ints:", "first-row", "str-key")):
                             fails.append(F("C", "Lean specification vs Python oracle: " + f["what"], "C:" + f["sig"]))
         return {"fails": fails, "nontrivial": nontrivial, "tags": sorted(set(tags)), "impl": impl.get("file"), "model": model}
@@ -1765,6 +2158,8 @@ class C07(Property):
                 c["rows"] = [[rn(t), r] for t, r in c["rows"]]
                 c["skip1"] = [rn(t) for t in c["skip1"]]
                 c["fail"] = [rn(t) for t in c["fail"]]
+                if c.get("abort"):
+                    c["abort"]["tri"] = rn(c["abort"]["tri"])
                 kind_of_pos = "ELV"[pos]
                 pn = []
                 for sel in c.get("punch") or []:
@@ -1793,6 +2188,13 @@ class C07(Property):
             c = cp(case); c["phases"] = 1; c["skip1"] = []; yield c
         if case.get("decoy"):
             c = cp(case); c["decoy"] = False; yield c
+        if case.get("abort"):
+            if case["abort"].get("repair"):
+                c = cp(case); c["abort"]["repair"] = False; yield c
+            if case["abort"].get("kind") != "set":
+                c = cp(case); c["abort"]["kind"] = "set"; yield c
+            if case["abort"].get("row"):
+                c = cp(case); c["abort"]["row"] = 0; yield c
         if "floats" in case:
             if case.get("count", 2000) > 50:
                 c = cp(case); c["count"] = case.get("count", 2000) // 2; yield c
